@@ -13,7 +13,8 @@ WATCHDOG = {"quick": 1800, "thorough": 10800}
 CASES = {"quick": 130, "thorough": 1500}
 FLOORS = {
     "quick": {"distinct_nontrivial": 150, "prefix_scores_compared": 15000, "cases[msl>1]": 400,
-              "cases_with_pruned_start": 300, "cases[user-cost]": 150, "cases[penalty=0]": 50},
+              "cases_with_pruned_start": 300, "cases[user-cost]": 150, "cases[penalty=0]": 50,
+              "direct_run_pelt_cases": 150, "cases[int64 data]": 20},
     "thorough": {"distinct_nontrivial": 3000, "prefix_scores_compared": 400000,
                  "exhaustive_ternary_runs": 100000},
 }
@@ -38,7 +39,8 @@ RULE = (
     "beta = detector.penalty_: score[t] == F*(t+1) for every prefix >= msl, all segments >= msl, "
     "penalised cost of the returned segmentation == F*(n) == final score. Premise (split inequality) "
     "checked on the table for every case (all triples, n<=120); failing cases discarded and counted. "
-    "Non-trivial = trace shows >=1 pruned start and >=1 changepoint and n>=3*msl; distinct by digest."
+    "Also the kernel run_pelt driven directly with integer-typed and float penalties, and integer-dtype "
+    "data. Non-trivial = trace shows >=1 pruned start and >=1 changepoint and n>=3*msl; distinct by digest."
 )
 ASSUMPTIONS = ["with ties any minimiser is accepted: only costs are compared, within 1e-9*(1+|F|)",
                "the cost table comes from the same cost class (C01 owns cost correctness)"]
@@ -119,13 +121,20 @@ def make_recipe(rng, tier):
         dk = "weak_changes"
     X, _ = gen_data(rng, n, p, dk)
     scale = float(rng.choice([0.0, 1e-6, 0.02, 0.1, 0.3, 0.7, 1.0, 2.0, 3.0]))
-    return {"cost": cost, "msl": msl, "scale": scale, "X": X, "data_kind": dk, "user": user}
+    int_dtype = bool(k in ("L2Cost", "none", "L1Cost", "L2fixed") and rng.random() < 0.15)
+    if int_dtype:
+        X = np.round(X * 2)
+    return {"cost": cost, "msl": msl, "scale": scale, "X": X, "data_kind": dk, "user": user,
+            "int_dtype": int_dtype}
 
 
 def exec_case(ctx, r, exhaustive=False):
     X = np.asarray(r["X"], dtype=float)
     if X.ndim == 1:
         X = X.reshape(-1, 1)
+    if r.get("int_dtype"):
+        X = X.astype(np.int64)  # the same numbers passed with an integer dtype
+        ctx.stat("cases[int64 data]")
     n, p = X.shape
     msl, scale, cost_spec = r["msl"], r["scale"], r["cost"]
     spec = S("PELT", cost=cost_spec, penalty_scale=scale, min_segment_length=msl)
@@ -159,7 +168,7 @@ def exec_case(ctx, r, exhaustive=False):
     trace = I.stop_trace()
     beta = float(det.penalty_)
     try:
-        C, lo = cost_table(cost_spec, X, msl)
+        C, lo = cost_table(cost_spec, X.astype(float), msl)
     except RuntimeError:
         ctx.stat("oracle_runtimeerror_discarded")
         return
@@ -217,6 +226,63 @@ def exec_case(ctx, r, exhaustive=False):
         ctx.nt(digest([spec, r["X"]]))
 
 
+def direct_case(ctx, r):
+    """The module-level kernel run_pelt(X, cost, penalty, min_segment_length) driven directly, with
+    integer-typed and float penalties (the detector only ever passes np.float64)."""
+    from skchange.change_detectors.pelt import run_pelt
+
+    X = np.asarray(r["X"], dtype=float)
+    n, p = X.shape
+    msl = r["msl"]
+    pen = {"int": int, "npint": np.int64, "float": float}[r["pen_type"]](r["penalty"])
+    sub = "run_pelt-direct"
+    ctx.case()
+    ctx.stat("direct_run_pelt_cases")
+    ctx.stat(f"direct_penalty_type[{r['pen_type']}]")
+    label = f"run_pelt(X[{n}x{p}], {short(r['cost'])}, penalty={pen!r} ({r['pen_type']}), msl={msl})"
+    try:
+        scores, cpts = run_pelt(X, build(r["cost"]), pen, msl)
+        C, lo = cost_table(r["cost"], X, msl)
+    except Exception as ex:
+        ctx.violation(sub, "exception", f"{label}: {type(ex).__name__}: {ex}", r)
+        return
+    if n <= 120 and not split_inequality_ok(C, n, lo):
+        ctx.stat("premise_failed_discarded")
+        return
+    F = reference_op(C, n, msl, float(pen))
+    tol = 1e-9 * (1 + np.abs(F[np.isfinite(F)]).max())
+    scores = np.asarray(scores, dtype=float)
+    ts = np.arange(msl, n + 1)
+    bad = ts[np.abs(scores[ts - 1] - F[ts]) > tol]
+    if bad.size:
+        t = int(bad[0])
+        ctx.violation(sub, "prefix-optimum", f"{label}: score of prefix X[0:{t}] is {scores[t - 1]} but the "
+                      f"optimal penalised cost is {F[t]}", r)
+        return
+    cp = [int(c) for c in cpts]
+    edges = [0] + cp + [n]
+    if np.any(np.diff(edges) < msl):
+        ctx.violation(sub, "short-segment", f"{label}: changepoints {cp}", r)
+        return
+    total = sum(C[a, b] for a, b in zip(edges[:-1], edges[1:])) + float(pen) * len(cp)
+    if abs(total - F[n]) > tol:
+        ctx.violation(sub, "not-a-minimiser", f"{label}: returned changepoints {cp} cost {total}, "
+                      f"optimum {F[n]}", r)
+    if len(cp) >= 1:
+        ctx.nt(digest(["direct", r["cost"], msl, r["penalty"], r["pen_type"], r["X"]]))
+
+
+def make_direct_recipe(rng, tier):
+    p = int(rng.integers(1, 3))
+    msl = int(rng.integers(1, 5))
+    n = int(rng.integers(2 * msl, 45))
+    X, _ = gen_data(rng, n, p, ["weak_changes", "mean_changes", "noise", "small_alphabet"][int(rng.integers(4))])
+    cost = [S("L2Cost", param=None), S("L1Cost", param=None, weight=1.0),
+            S("ClosureTableCost", seed=int(rng.integers(10 ** 6)), maxinc=2, zero_prob=0.5)][int(rng.integers(3))]
+    return {"direct": True, "cost": cost, "msl": msl, "X": X, "penalty": int(rng.integers(0, 6)),
+            "pen_type": ["int", "npint", "float"][int(rng.integers(3))]}
+
+
 def exhaustive_jobs(tier):
     nmax = 6 if tier == "quick" else 9
     costs = [S("L2Cost", param=None)] + ([S("ModeCost", param=None)] if tier == "thorough" else [])
@@ -233,6 +299,8 @@ def run(ctx):
     I.install()
     for _ in range(CASES[ctx.tier]):
         exec_case(ctx, make_recipe(ctx.rng, ctx.tier))
+    for _ in range(CASES[ctx.tier] // 3):
+        direct_case(ctx, make_direct_recipe(ctx.rng, ctx.tier))
     k = 0
     for cost, n, msl, beta in exhaustive_jobs(ctx.tier):
         scale = beta / (2 * np.log(n))
@@ -246,4 +314,7 @@ def run(ctx):
 
 def replay(ctx, sub, recipe):
     I.install()
-    exec_case(ctx, recipe)
+    if recipe.get("direct"):
+        direct_case(ctx, recipe)
+    else:
+        exec_case(ctx, recipe)
